@@ -30,6 +30,7 @@ def check(repo, col, tier):
     col.rule("R-C16-stale", "no must-stale read of a loop-assigned variable in the SWC helpers", 3)
     col.rule("R-C16-forms", "interpolation / centre / clipping / length conventions", 8)
     _ids_to_rows(repo, col, "R-C16-forms")
+    _columns(repo, col, "R-C16-forms")
     col.rule("R-C16-switches", "optional conventions of the reader are off by default", 3)
     _switches(repo, col, "R-C16-switches")
     col.rule("R-C16-fresh", "every import reads the file: no step of the reader is memoised", 10)
@@ -516,6 +517,90 @@ def _fresh(repo, col, R):
         wr = [n for n in ast.walk(fi.node) if isinstance(n, ast.Assign) and any(isinstance(t, ast.Subscript) and isinstance(t.value, ast.Name) and t.value.id in glob for t in n.targets)]
         col.check(not wr, R, fi, f"{q} keeps no parsed file in a module-level table", "",
                   f"`{unparse(wr[0])[:70] if wr else ''}` stores a result in a module-level dictionary", node=wr[0] if wr else fi.node)
+
+
+def _columns(repo, col, R):
+    """The SWC format fixes the columns: id, type, x, y, z, radius, parent (0..6).  swc_to_jaxley hands each helper the columns it
+    works on -- types = column 1, traced radii = column 5, (type, x, y, z, r) = columns 1..5 for the path lengths, (x, y, z, r) =
+    columns 2..5 of the branch's own points (id - 1) for the coordinates -- and the branches it got from the splitter, in the roles of
+    the callees' parameters."""
+    fi = repo.func(SW, "swc_to_jaxley")
+    ex = idx.expander(repo, fi)
+
+    def col_of(t):
+        """(rows, columns) description of content[rows, cols]: columns as int or (lo, hi)"""
+        if not (t.op == "sub" and t.args[1].op == "tuple" and len(t.args[1].args) == 2 and T.find(t.args[0], lambda x: x.op == "mcall" and x.name == "loadtxt") is not None):
+            return None
+        r, c = t.args[1].args
+        cv = lambda x: x.name if x.op == "const" else (-x.args[0].name if (x.op == "unary" and x.name == "USub" and x.args[0].op == "const") else "?")
+        cols = c.name if c.op == "const" else ((cv(c.args[0]), cv(c.args[1])) if c.op == "slice" else "?")
+        return r, cols
+    want = {"_compute_pathlengths": {1: (1, 6)}, "_radius_generating_fns": {1: 5}}
+    n = 0
+    for c in ex.calls:
+        if isinstance(c.func, ast.Name) and c.func.id in want:
+            t = ex.term(c)
+            cal = repo.func(CU, c.func.id)
+            # argument 0: the branches returned by the splitter
+            a0 = t.args[0] if t.args else None
+            from_split = a0 is not None and T.find(a0, lambda x: x.op == "call" and x.name == "_split_into_branches_and_sort") is not None and \
+                T.find(a0, lambda x: x.op == "item" and x.name == 0) is not None
+            n += 1
+            col.check(from_split, R, fi, f"{c.func.id} receives the branches of the splitter as `{cal.params[0]}`", "sorted_branches",
+                      f"argument `{cal.params[0]}` is {a0.short(70) if a0 is not None else None}", node=c)
+            for pos, cols in want[c.func.id].items():
+                a = t.args[pos] if len(t.args) > pos else None
+                d = col_of(a) if a is not None else None
+                n += 1
+                col.check(d is not None and d[1] == cols and d[0].op == "slice", R, fi, f"{c.func.id} receives column(s) {cols} of the file as `{cal.params[pos]}`",
+                          f"content[:, {cols}]", f"argument `{cal.params[pos]}` is {a.short(70) if a is not None else None}: the SWC columns are id, type, x, y, z, radius, parent",
+                          node=c)
+    # the type column and the single-point-soma test
+    sp = next((s_ for s_ in ast.walk(fi.node) if isinstance(s_, ast.Assign) and isinstance(s_.value, ast.BoolOp)), None)
+    spt = ex.term(sp.value) if sp is not None else None
+    # (located by what it is: the conjunction that is handed on as `is_single_point_soma`)
+    for c in ex.calls:
+        if isinstance(c.func, ast.Name) and c.func.id == "_split_into_branches_and_sort":
+            tt = ex.term(c)
+            cal = repo.func(CU, c.func.id)
+            i_ = cal.params.index("is_single_point_soma") if "is_single_point_soma" in cal.params else None
+            spt = tt.kw.get("is_single_point_soma") or (tt.args[i_] if i_ is not None and len(tt.args) > i_ else spt)
+    ok = False
+    if spt is not None and spt.op == "bool" and spt.name == "And" and len(spt.args) == 2:
+        def side(q, k, op):
+            if not (q.op == "cmp" and q.name == op and len(q.args) == 2):
+                return False
+            a, b = q.args
+            if b.op != "const":
+                a, b = b, a
+            d = col_of(a.args[0]) if (a.op == "sub" and a.args[1].op == "const" and a.args[1].name == k) else None
+            return b.op == "const" and b.name == 1 and d is not None and d[1] == 1
+        ok = (side(spt.args[0], 0, "==") and side(spt.args[1], 1, "!=")) or (side(spt.args[1], 0, "==") and side(spt.args[0], 1, "!="))
+    n += 1
+    col.check(ok, R, fi, "a soma is a single traced point iff the first point has type 1 and the second has not", "types[0] == 1 and types[1] != 1 with types = content[:, 1]",
+              f"the test is {spt.short(100) if spt is not None else None}", node=sp or fi.node)
+    # coordinates of a branch: columns 2..5 of its own points
+    okc = False
+    det = None
+    # (appended in a loop or built by a comprehension: the table read with a row selection derived from the branches)
+    cands = {}
+    for t_ in [s_.value for s_ in ex.stores if s_.value is not None] + list(ex.returns):
+        for x in t_.walk():
+            d_ = col_of(x)
+            if d_ is not None and d_[0].op != "slice" and not (d_[0].op == "const"):
+                cands[x.key()] = x
+    for v in cands.values():
+        d = col_of(v)
+        if d is not None:
+            det = v.short(80)
+            rows = d[0]
+            minus1 = T.find(rows, lambda x: x.op == "binop" and x.name == "-" and x.args[1].op == "const" and x.args[1].name == 1) is not None
+            okc = d[1] == (2, 6) and minus1
+    n += 1
+    col.check(okc, R, fi, "the coordinates of a branch are columns 2..5 (x, y, z, r) of its own points (id - 1)", "content[branch - 1, 2:6]",
+              f"coordinates are {det}", node=fi.node)
+    if n < 6:
+        raise AnalysisError(f"only {n} column obligations raised for swc_to_jaxley")
 
 
 def _ids_to_rows(repo, col, R):
